@@ -108,7 +108,7 @@ func (w *World) rootLoad(st *State, l *Loc) Term {
 	case "heapcell":
 		return sel(w.hget(st, w.cellKey(w.sortOf(l.rootT))), l.base)
 	case "elem":
-		return sel(sel(w.hget(st, w.elemsKey(w.sortOf(l.rootT))), l.base), l.idx)
+		return sel(sel(w.hget(st, w.elemsKeyT(l.rootT)), l.base), l.idx)
 	case "global":
 		return w.hget(st, l.key)
 	}
@@ -126,7 +126,7 @@ func (w *World) rootStore(st *State, l *Loc, v Term) {
 		k := w.cellKey(w.sortOf(l.rootT))
 		w.hset(st, k, store(w.hget(st, k), l.base, v))
 	case "elem":
-		k := w.elemsKey(w.sortOf(l.rootT))
+		k := w.elemsKeyT(l.rootT)
 		h := w.hget(st, k)
 		w.hset(st, k, store(h, l.base, store(sel(h, l.base), l.idx, v)))
 	case "global":
@@ -418,7 +418,7 @@ func (w *World) execInstr(fr *Frame, st *State, ins ssa.Instruction) {
 			case "field":
 				w.loopWriteCheck(fr, st, w.fieldKey(l.styp, l.field), l.base)
 			case "elem":
-				w.loopWriteCheck(fr, st, w.elemsKey(w.sortOf(l.rootT)), l.base)
+				w.loopWriteCheck(fr, st, w.elemsKeyT(l.rootT), l.base)
 			case "heapcell":
 				w.loopWriteCheck(fr, st, w.cellKey(w.sortOf(l.rootT)), l.base)
 			}
@@ -495,7 +495,7 @@ func (w *World) execInstr(fr *Frame, st *State, ins ssa.Instruction) {
 		et := ins.Type().Underlying().(*types.Slice).Elem()
 		r := w.newRef(st)
 		ln, cp := w.term(fr, st, ins.Len), w.term(fr, st, ins.Cap)
-		k := w.elemsKey(w.sortOf(et))
+		k := w.elemsKeyT(et)
 		es := arraySort(SInt, w.sortOf(et))
 		w.hset(st, k, store(w.hget(st, k), r, Term{fmt.Sprintf("((as const %s) %s)", es, w.zero(et).S), es}))
 		fr.vals[ins] = &Val{T: w.sc.define("mkslice", mk(SSlice, "mkSlice", r, intLit(0), ln, cp)), Typ: ins.Type()}
@@ -614,7 +614,7 @@ func (w *World) execAlloc(fr *Frame, st *State, ins *ssa.Alloc) {
 			w.hset(st, k, store(w.hget(st, k), r, w.zero(u.Field(i).Type())))
 		}
 	case *types.Array:
-		k := w.elemsKey(w.sortOf(u.Elem()))
+		k := w.elemsKeyT(u.Elem())
 		w.hset(st, k, store(w.hget(st, k), r, w.zero(et)))
 	default:
 		k := w.cellKey(w.sortOf(et))
@@ -972,14 +972,14 @@ func (w *World) execConvert(fr *Frame, st *State, ins *ssa.Convert) {
 	case fs == SString && ts == SSlice:
 		// []byte(s): a fresh byte array holding the bytes of s
 		r := w.newRef(st)
-		k := w.elemsKey(SInt)
+		k := w.elemsKeyT(types.Typ[types.Uint8])
 		w.hset(st, k, store(w.hget(st, k), r, mk(arraySort(SInt, SInt), "bytesOf", x.T)))
 		w.needBytesModel()
 		ln := mk(SInt, "str.len", x.T)
 		fr.vals[ins] = &Val{T: w.sc.define("bytes", mk(SSlice, "mkSlice", r, intLit(0), ln, ln)), Typ: ins.Type()}
 	case fs == SSlice && ts == SString:
 		w.needBytesModel()
-		k := w.elemsKey(SInt)
+		k := w.elemsKeyT(types.Typ[types.Uint8])
 		fr.vals[ins] = &Val{T: w.sc.define("str", mk(SString, "stringOf", sel(w.hget(st, k), sarr(x.T)), soff(x.T), slen(x.T))), Typ: ins.Type()}
 	case fs == SInt && ts == SReal:
 		fr.vals[ins] = &Val{T: mk(SReal, "to_real", x.T), Typ: ins.Type()}
